@@ -142,6 +142,7 @@ func runVariant(repo, verif, prop string, idx int) {
 				r.Undecided("analyser", "panic", "", "analyser handles the variant", fmt.Sprint(x))
 			}
 		}()
+		props.SetWorld(w)
 		props.Registry[prop](&props.Ctx{W: w, R: r})
 	}()
 	un := r.Unresolved(known)
